@@ -223,9 +223,10 @@ func (fn *Fn) recvType() string {
 	return "T"
 }
 
-// fileOf: the functions of odd chains live in a second source file.
-func fileOf(c int) string {
-	if c%2 == 1 {
+// fileOf: the functions alternate between two source files, so that one traceback walks
+// through both.
+func fileOf(c, f int) string {
+	if (c+f)%2 == 1 {
 		return "b.go"
 	}
 	return "main.go"
@@ -252,11 +253,11 @@ func (p *c19Prog) sources() map[string]string {
 	}
 	b.WriteString("}\n")
 	for c, ch := range p.Chains {
-		w := &b
-		if fileOf(c) == "b.go" {
-			w = &b2
-		}
 		for f, fn := range ch.Funcs {
+			w := &b
+			if fileOf(c, f) == "b.go" {
+				w = &b2
+			}
 			w.WriteString("\n//go:noinline\nfunc ")
 			if fn.Recv {
 				w.WriteString("(t *" + fn.recvType() + ") ")
